@@ -605,7 +605,23 @@ func VerifPAN() {
 	for _, c := range c3 {
 		vf.Note("CHG3:", verifUnesc(c))
 	}
-	vf.Assert(len(c3) == 0, lbl+": PAN-OS: second compare still reports changes")
+	// defect family: a rule list holds two address-groups whose names on
+	// the device sort differently from the target's names; the second
+	// compare pairs the groups by sorted name, "equalizes" the wrong
+	// partners and only shuffles members / list order: the expanded
+	// rulebase is the target's before and after its commands
+	tag := ""
+	if len(c3) > 0 && verifGroupList && verifSameRulebase(&model.verifVsys, tgt) {
+		m4 := &verifPan{*model.clone()}
+		for _, c := range c3 {
+			m4.exec(c, vsysPath)
+		}
+		if verifSameRulebase(&m4.verifVsys, tgt) {
+			tag = " [rule list with two address-groups is re-paired, expanded rulebase unchanged]"
+			vf.Cover("second compare re-pairs two address-groups of one list")
+		}
+	}
+	vf.Assert(len(c3) == 0, lbl+": PAN-OS: second compare still reports changes"+tag)
 }
 
 // element values are printed with (edit) or without (set) their outer tag
